@@ -2,9 +2,9 @@ package main
 
 import (
 	"fmt"
-	"os"
 	"go/token"
 	"go/types"
+	"os"
 	"sort"
 	"strings"
 
@@ -431,7 +431,7 @@ func (f *FnEnc) encode() {
 			f.assumed = append(f.assumed, "requires "+r.Label)
 		}
 		// vacuity guard: the preconditions must be satisfiable
-		f.obls = append(f.obls, &Obligation{Func: f.name, Kind: "cover", Label: "pre", Name: f.name + "/cover/pre", Tags: f.c.Tags, Pos: f.out.Len(), At: "true", Goal: "true", Cover: true, Src: f.c.Src})
+		f.obls = append(f.obls, &Obligation{Func: f.name, Kind: "cover", Label: "pre", Name: f.name + "/cover/pre", Tags: f.c.Tags, Pos: f.out.Len(), Block: -1, At: "true", Goal: "true", Cover: true, Src: f.c.Src})
 	}
 	order := f.topo()
 	for _, b := range order {
@@ -446,6 +446,7 @@ func (f *FnEnc) encode() {
 func (f *FnEnc) block(b *ssa.BasicBlock) {
 	f.curBlock = b
 	f.curInstr = nil
+	f.segs = append(f.segs, seg{f.out.Len(), b.Index})
 	// entry state
 	var fpreds []*ssa.BasicBlock
 	for _, p := range b.Preds {
@@ -690,7 +691,7 @@ func (f *FnEnc) obligeNoAssume(kind, label string, tags []string, goal, src stri
 	if n := f.kindN[kind+"/"+label]; n > 1 {
 		name = fmt.Sprintf("%s#%d", name, n)
 	}
-	f.obls = append(f.obls, &Obligation{Func: f.name, Kind: kind, Label: label, Name: name, Tags: tags, Pos: f.out.Len(), At: f.st.at, Goal: goal, Src: src})
+	f.obls = append(f.obls, &Obligation{Func: f.name, Kind: kind, Label: label, Name: name, Tags: tags, Pos: f.out.Len(), Block: f.curBlockIdx(), At: f.st.at, Goal: goal, Src: src})
 }
 
 // checkPost emits the postcondition and frame obligations at a return.
